@@ -250,6 +250,18 @@ def run(prog, tier) -> Result:
            f"{len(accepted)} of {len(outs)} paths accept a quantum without reference unit",
            sig="quantum without reference unit accepted")
 
+    # ... and a quantum declared together with a reference unit is the type's quantum
+    def body_q2(I, c):
+        base_types(c)
+        cls = create_class(prog, I, c, derived=False, ref_symbol=True, ref_name=True, quantum=True)
+        return I.models.get_attr(cls, "quantum", None)
+    outs = run_body(prog, body_q2, max_depth=12)
+    res.paths += len(outs)
+    got = [o for o in outs if o.kind == "return"]
+    okq = bool(got) and all(isinstance(o.value, Num) and o.state.norm(o.value.rf).equals(RF.atom(("k", "quantum"))) for o in got)
+    res.ob("R05.3b", "QuantityMeta.__new__", "the declared quantum is the type's quantum", okq,
+           f"{[o.brief()[:80] for o in outs][:3]}", sig="declared quantum not stored")
+
     # R05.4 rounded once: all multiplicative arms ...
     for rule, fi, label, setup, judge, kw in op_cases(prog, mode="rounding",
                                                       flavors=("ref+quantum", "money")):
